@@ -6,9 +6,11 @@ package fix
 import (
 	"bytes"
 	"fmt"
+	"io"
 	"net"
 	"sync"
 	"sync/atomic"
+	"syscall"
 	"time"
 
 	logging "github.com/mdzio/go-logging"
@@ -219,10 +221,47 @@ type Broker struct {
 	Name string
 	gate *gateProvider
 
+	// Seg, when not empty, makes the server side of every connection dialled
+	// from now on read its bytes in pieces: the i-th Read returns at most
+	// Seg[i mod len(Seg)] bytes (TCP segmentation; net.Pipe alone hands over a
+	// whole write per Read). Reset makes those connections report the end of
+	// the stream as a connection reset (a net.OpError) instead of io.EOF.
+	Seg   []int
+	Reset bool
+
 	mu      sync.Mutex
 	conns   []*Conn
 	escaped []string
 	closed  bool
+}
+
+// segConn delivers the inbound bytes in pieces of generated sizes and may turn
+// the end of the stream into a connection-reset error.
+type segConn struct {
+	net.Conn
+	seg   []int
+	i     int
+	small int // reads shortened so far (bounded, so that huge payloads stay affordable)
+	reset bool
+}
+
+// segBudget bounds the number of shortened reads per connection.
+const segBudget = 4000
+
+func (s *segConn) Read(p []byte) (int, error) {
+	if len(s.seg) > 0 && s.small < segBudget {
+		k := s.seg[s.i%len(s.seg)]
+		s.i++
+		if k >= 1 && k < len(p) {
+			p = p[:k]
+			s.small++
+		}
+	}
+	n, err := s.Conn.Read(p)
+	if err == io.EOF && s.reset {
+		err = &net.OpError{Op: "read", Net: "pipe", Err: syscall.ECONNRESET}
+	}
+	return n, err
 }
 
 // Authenticator kinds registered by the fixture.
@@ -364,7 +403,9 @@ func (e *eofConn) Read(p []byte) (int, error) {
 // DialOpt is Dial with a choice of transport: with eofWithData the server
 // side reads through a transport that may return the last bytes and the
 // end-of-stream error from the same Read call.
-func (b *Broker) DialOpt(name string, eofWithData bool) *Conn { return b.dial(name, eofWithData, false) }
+func (b *Broker) DialOpt(name string, eofWithData bool) *Conn {
+	return b.dial(name, eofWithData, false)
+}
 
 // DialStalled is Dial for a client that does not read from the start: the
 // broker's first write to it (the CONNACK) blocks until the client reads or
@@ -376,6 +417,9 @@ func (b *Broker) dial(name string, eofWithData, stalled bool) *Conn {
 	var srv net.Conn = srvPipe
 	if eofWithData {
 		srv = newEOFConn(srvPipe)
+	}
+	if len(b.Seg) > 0 || b.Reset {
+		srv = &segConn{Conn: srv, seg: append([]int(nil), b.Seg...), reset: b.Reset}
 	}
 	var wc *wire.Client
 	if stalled {
